@@ -168,3 +168,69 @@ func init() {
 		Distinct: distinctKindCodes,
 	})
 }
+
+// MonC07 adds the "keeps producing blocks" half of C07: any stop of the node that no governance
+// vote can justify is a violation (panics are reported by the world itself).
+type MonC07 struct {
+	NopMonitor
+}
+
+func (m *MonC07) AfterBlock(w *World, b *BlockCtx) {
+	if b.Res.Stopped {
+		w.Report("C07", "keeps-producing-blocks", "unjustified-stop", "node stopped itself although the history contains no halt or version vote", b.Height)
+	}
+}
+
+func hostileProfile() Profile {
+	p := GeneralProfile()
+	p.PGarbage, p.PDup, p.PBadNonce, p.PBadSig, p.PMultisig = 0.08, 0.12, 0.08, 0.08, 0.1
+	p.PBigAmt, p.PZeroGP, p.PPayload, p.PClockJump, p.PEvidence, p.PAbsent, p.PStreak = 0.35, 0.05, 0.2, 0.08, 0.08, 0.08, 0.05
+	p.EvidenceOnPayout = true
+	p.W["editcandpk"], p.W["unknowntype"], p.W["pricevote"] = 4, 2, 2
+	for _, k := range []string{"unbond", "move", "lock", "addorder", "remorder", "declare", "delegate", "seton", "setoff"} {
+		p.W[k] = 8
+	}
+	return p
+}
+
+func init() {
+	register(&PropSpec{ID: "C07", Level: "exploration",
+		Rule: "hostile histories: random and structure-mutated transaction bytes of every type (zero/huge amounts, missing entities, 33 signatures, payload at limits), hostile begin-block requests (unknown/duplicate/empty vote sets, evidence against current/offline/unknown validators biased to payout blocks, clock jumps into the reward window, non-monotone time), genesis with and without the BIP/USDT pool; oracle: no call panics or stops the node and the next block commits; distinct non-trivial case = distinct (tx kind, result code) pair, plus fault kinds fired",
+		Make: func(r *rand.Rand, seed int64, chain int, tier string) *Scenario {
+			p := hostileProfile()
+			sc := baseScenario("C07", r, seed, chain, tier, p, func(g *GenCfg, n *NodeCfg) {
+				if r.Intn(5) == 0 {
+					g.USDT = false
+				}
+				if r.Intn(4) == 0 {
+					g.NearCap = true
+				}
+			})
+			for i := range sc.Blocks {
+				b := &sc.Blocks[i]
+				switch r.Intn(30) {
+				case 0:
+					b.NoVotes = true
+				case 1:
+					b.DupVote = true
+				case 2:
+					b.ExtraVotes = []int64{int64(r.Intn(100)), int64(r.Intn(100))}
+				case 3:
+					b.TimeBack = int64(1 + r.Intn(100000))
+				case 4:
+					// land in the reward update window
+					b.Dt = int64(3600 * (1 + r.Intn(23)))
+				}
+			}
+			return sc
+		},
+		Monitors: func(sc *Scenario) []Monitor { return []Monitor{&MonC07{}} },
+		Distinct: func(w *World) []string {
+			out := distinctKindCodes(w)
+			for k := range w.Stats.Faults {
+				out = append(out, "fault:"+k)
+			}
+			return out
+		},
+	})
+}
